@@ -74,6 +74,7 @@ def _wp_set(self, v):
 
 
 POOL_OPS = ('acquire_all', 'release_all', 'next_idle', 'release', 'idle', 'call')
+COMPOSITE_OPS = ('run', 'call_and_wait')
 ENV_OPS = ('die', 'revive', 'send', 'deliver', 'tick')
 
 
@@ -108,9 +109,12 @@ def run_real(case, max_steps=4000):
   fakecourier.install()
   import courier  # the fake
   logging.disable(logging.CRITICAL)
-  clock = fakecourier.VirtualClock(start=float(case['now']))
-  fakecourier.reset(mode='manual', time_fn=clock.time)
-  from ml_metrics._src.chainables import courier_server, courier_worker
+  # composite operations (`run`, `call_and_wait`: family 'schedrun', oracle only) need their RPCs answered: the
+  # transport then runs every handler inline and the repo's spin loops advance the virtual clock by `spin` seconds
+  composite = any(o['op'] in COMPOSITE_OPS for th in case['threads'] for o in th['ops'])
+  clock = fakecourier.VirtualClock(start=float(case['now']), spin_tick=float(case.get('spin', 60)) if composite else 0.0)
+  fakecourier.reset(mode='inline' if composite else 'manual', time_fn=clock.time)
+  from ml_metrics._src.chainables import courier_server, courier_worker, lazy_fns
   from ml_metrics._src.utils import courier_utils
   fakecourier.patch_time(clock)
   n, pw = case['nworkers'], case['pw']
@@ -148,7 +152,7 @@ def run_real(case, max_steps=4000):
       srv = courier.Server(a)
       ns = _types.SimpleNamespace(_last_heartbeat=0.0)
       srv.Bind('heartbeat', lambda *args, _ns=ns, **kw: courier_server.CourierServer._heartbeat(_ns, *args, **kw))  # pylint: disable=protected-access
-      srv.Bind('maybe_make', lambda *args, **kw: b'')
+      srv.Bind('maybe_make', lambda lazy=None, *args, **kw: lazy_fns.pickler.dumps(lazy_fns.maybe_make(lazy)))
       srv.Start()
     workers = [courier_worker.Worker(a, heartbeat_threshold_secs=case['thr']) for a in addrs]
     for i, w in enumerate(workers):
@@ -198,6 +202,16 @@ def run_real(case, max_steps=4000):
       if op == 'call':
         workers[o['w']].call(1)
         return None
+      if op in COMPOSITE_OPS:
+        task = lazy_fns.trace(len)([1, 2]) if o['task'] == 'ok' else lazy_fns.trace(len)(0.5)   # TypeError at the worker
+        try:
+          pool.run(task) if op == 'run' else pool.call_and_wait(task)
+          return 'ok'
+        except shim._Killed:  # pylint: disable=protected-access
+          raise
+        except Exception as e:  # pylint: disable=broad-except
+          from harness.core import err_kind
+          return f'err:{err_kind(e)}:{str(e)[:18]}'
       raise ValueError(op)
 
     def do_env(o, tid=None, j=None):
@@ -207,6 +221,8 @@ def run_real(case, max_steps=4000):
       elif op == 'revive':
         reg.register(addrs[o['w']], clock.time())
       elif op == 'send':
+        if composite:     # inline transport: the heartbeat is delivered (its handler runs) at once
+          opinfo[f'{tid},{j}'] = dict(method='heartbeat', sender=o['w'], alive=bool(o['alive']), fail=False)
         courier.Client(master).futures.heartbeat(addrs[o['w']], bool(o['alive']))
       elif op == 'deliver':
         pend = fakecourier.world().pending
